@@ -14,6 +14,7 @@ package main
 
 import (
 	"fmt"
+	"regexp"
 	"sort"
 	"strconv"
 	"strings"
@@ -409,20 +410,34 @@ func main() {
 		restartEvery, _ = strconv.Atoi(f.Extra)
 	}
 	u, d := appenv.NewAccount("u"), appenv.NewAccount("deployer")
-	pa, pb := "gno.land/r/verif/valsa", "gno.land/r/verif/valsb"
 	e, err := appenv.New(appenv.Options{
 		MaxGas:   3_000_000_000,
 		Balances: map[crypto.Address]int64{u.Addr: 4_000_000_000_000_000, d.Addr: 1_000_000_000_000},
 		Deployer: d,
-		Pkgs: []appenv.Pkg{
-			{Path: pa, Files: map[string]string{"vals.gno": src(pa)}},
-			{Path: pb, Files: map[string]string{"vals.gno": src(pb)}},
-		},
 	})
 	if err != nil {
 		mbt.Die("app: %v", err)
 	}
 	w := &world{e: e, user: u}
+	ninst := 0
+	// a fresh pair of instances of the realm: (a) per-call, (b) single transaction
+	deploy := func() (string, string) {
+		ninst++
+		pa, pb := fmt.Sprintf("gno.land/r/verif/valsa%d", ninst), fmt.Sprintf("gno.land/r/verif/valsb%d", ninst)
+		for _, p := range []string{pa, pb} {
+			ai := w.e.Account(u.Addr)
+			tx := appenv.SignTx([]std.Msg{appenv.AddPkgMsg(u.Addr, appenv.Pkg{Path: p, Files: map[string]string{"vals.gno": src(p)}})},
+				600_000_000, 1_000_000, appenv.ChainID, u, ai.Num, ai.Seq)
+			w.e.BeginBlock()
+			r := w.e.Deliver(tx)
+			w.e.EndBlockCommit()
+			if !r.IsOK() {
+				mbt.Die("deploy %s: %.500s", p, r.Log)
+			}
+		}
+		return pa, pb
+	}
+	pa, pb := deploy()
 	sum := map[string]int{}
 	reported := map[string]bool{}
 	seenBeh := map[string]bool{}
@@ -444,11 +459,33 @@ func main() {
 			}
 			dumpsB = dumpsB[1:]
 		}
-		// (a) one transaction per call
+		// (a) one transaction per call. A VM panic inside a transaction is a RESULT (compared with the
+		// other mode), never an infrastructure failure: an instance whose state can no longer even be
+		// re-initialised was broken by the per-call execution of an earlier behaviour.
 		if ok, _, log := w.call(pa, "Script", "reset"); !ok {
-			mbt.Die("reset failed: %.300s", log)
+			key := "C03:persistence-changes-result:panic-only-with-boundaries"
+			if !reported[key+":reset"] {
+				reported[key+":reset"] = true
+				prev := map[string]any{"beh": bi - 1}
+				if bi > 0 {
+					prev["steps"] = behs[bi-1]
+				}
+				mbt.Mismatch(key, fmt.Sprintf("after the per-call execution of behaviour %d the realm instance cannot be re-initialised (%s); the single-transaction instance can", bi-1, trim(firstErr(log), 200)), prev)
+			}
+			sum["mismatches"]++
+			sum["instances_replaced"]++
+			pa, pb = deploy()
+			if ok, _, log := w.call(pa, "Script", "reset"); !ok {
+				mbt.Die("reset of a fresh instance failed: %.300s", log)
+			}
+			okB, dataB, logB = w.call(pb, "Script", "reset;"+strings.Join(ops, ";"))
+			dumpsB = nil
+			if okB {
+				dumpsB = strings.Split(strings.TrimSuffix(unquoteResult(dataB), "#"), "#")[1:]
+			}
 		}
 		failedAt := -1
+		logA := ""
 		good := true
 		aliased := 0
 		prevDump := ""
@@ -460,10 +497,11 @@ func main() {
 				}
 				sum["restarts"]++
 			}
-			okA, dataA, _ := w.call(pa, "Script", op)
+			okA, dataA, lA := w.call(pa, "Script", op)
 			sum["steps"]++
 			if !okA {
 				failedAt = i
+				logA = lA
 				break
 			}
 			dA := strings.TrimSuffix(unquoteResult(dataA), "#")
@@ -506,17 +544,33 @@ func main() {
 			}
 			good = false
 		case !okB && failedAt >= 0:
-			sum["both_failed"]++ // the model generated an illegal call (guidance): same verdict on both sides
+			// both abort: the model generated an illegal call (guidance) - unless they abort differently
+			if ea, eb := normErr(firstErr(logA)), normErr(firstErr(logB)); ea != eb {
+				key := "C03:persistence-changes-result:different-panic"
+				if !reported[key] {
+					reported[key] = true
+					mbt.Mismatch(key, fmt.Sprintf("call %d (%q): per-call execution aborts with %q, the single transaction with %q", failedAt+1, ops[failedAt], trim(ea, 160), trim(eb, 160)), map[string]any{"steps": beh[:failedAt+1], "beh": bi})
+				}
+				sum["mismatches"]++
+			} else {
+				sum["both_failed"]++
+			}
 			good = false
 		}
 		if good {
 			// the realm state observed afterwards, through a query
 			qa, ea := w.e.QEval(pa, "Dump()")
 			qb, eb := w.e.QEval(pb, "Dump()")
-			if ea != nil || eb != nil {
-				mbt.Die("qeval: %v %v", ea, eb)
-			}
-			if qa != qb {
+			if (ea != nil) != (eb != nil) {
+				key := "C03:persistence-changes-state:query-fails-only-" + map[bool]string{true: "with", false: "without"}[ea != nil] + "-boundaries"
+				if !reported[key] {
+					reported[key] = true
+					mbt.Mismatch(key, fmt.Sprintf("final vm/qeval Dump(): per-call instance %v, single-transaction instance %v", ea, eb), map[string]any{"steps": beh, "beh": bi})
+				}
+				sum["mismatches"]++
+			} else if ea != nil {
+				sum["both_failed"]++
+			} else if qa != qb {
 				key := "C03:persistence-changes-state:" + diffGroup(unquoteResult(qa), unquoteResult(qb))
 				if !reported[key] {
 					reported[key] = true
@@ -544,6 +598,11 @@ func main() {
 	mbt.Summary(out)
 	mbt.Flush()
 }
+
+var reDigits = regexp.MustCompile(`[0-9a-f]{8,}|[0-9]+`)
+
+// error text with object ids / numbers masked
+func normErr(s string) string { return reDigits.ReplaceAllString(s, "#") }
 
 func firstErr(log string) string {
 	for _, l := range strings.Split(log, "\n") {
